@@ -67,9 +67,14 @@ def check(rep, model, tier):
         cols = dict(res[1])
         want = {}
         for f, col in names.items():
+            evs = E.calls_to(ctx, f)
             f_ = model.find(f)
-            args = (S,) if f != 'compute_monotonicity' else (S, ('param', 'sig'))
-            want[col] = T.call(f, args)
+            exp = {f_.params[0]: S}
+            if f == 'compute_monotonicity':
+                exp[f_.params[1]] = ('param', 'sig')
+            if 'direction' in f_.params:
+                exp['direction'] = C('both')
+            want[col] = T.call(f, (), exp)
         if set(cols) != set(want):
             rep.violation('WIRING', f'{centre}:columns', site, expected=sorted(want), found=sorted(cols))
         for col in want:
